@@ -134,6 +134,42 @@ fn c11_tree(ctx: &mut Ctx, tree: &Value) {
         if nontrivial {
             ctx.mark_nontrivial(&rule, tree);
         }
+        // the same segments joined in the syntax of *other* path languages name no node (unless
+        // such a key exists - the model knows): JSON Pointer, JSONPath, arrows, brackets
+        if segs.len() >= 2 && segs.iter().all(|x| !x.is_empty()) && ctx.rng.chance(1, 3) {
+            let plain: Vec<String> = segs.iter().map(|x| x.to_string()).collect();
+            for foreign in [plain.join("/"), format!("/{}", plain.join("/")), plain.join("~1"), plain.join("->"), format!("$.{}", plain.join(".")), format!("{}[{}]", plain[0], plain[1..].join("][")), plain.join(":"), plain.join("|"), plain.join("\\/")] {
+                c11_case(ctx, &json!({"var": [foreign, "DEFAULT"]}), tree, "foreign-syntax");
+            }
+        }
+        // composition (needs no model): resolving `prefix ++ rest` on the tree is resolving `rest`
+        // on the node the prefix names - for ANY spelling of `rest`, also those whose meaning the
+        // statement leaves open (non-canonical index spellings, foreign syntax)
+        if ctx.rng.chance(1, 2) {
+            let mut rests: Vec<String> = vec!["0".into(), "1".into(), "-1".into(), "00".into(), "01".into(), "+0".into(), "+1".into(), "-0".into(), "-01".into(), "1.0".into(), "1e0".into(), " 1".into(), "1 ".into(), "k".into(), "0.0".into(), "0.00".into(), "-1.-1".into(), "0.-01".into(), "1.+0".into(), "a/b".into(), "~0".into(), "[0]".into(), "*".into(), "length".into()];
+            if let Value::Object(m) = node {
+                for k in m.keys().take(3) {
+                    rests.push(path_of(&[k.clone()]));
+                }
+            }
+            let k1 = ctx.rng.below(rests.len());
+            let k2 = ctx.rng.below(rests.len());
+            for rest in [rests[k1].clone(), rests[k2].clone()] {
+                let full = format!("{}.{}", p, rest);
+                let a = ctx.observe(&json!({"var": [full, sentinel]}), tree).out;
+                let b = ctx.observe(&json!({"var": [rest, sentinel]}), node).out;
+                ctx.mon("c11.composition").observed += 1;
+                ctx.mon("c11.composition").judged += 1;
+                let same = match (&a, &b) {
+                    (Outcome::Ok(x), Outcome::Ok(y)) => x.to_string() == y.to_string(),
+                    (Outcome::Err(_), Outcome::Err(_)) => true,
+                    _ => false,
+                };
+                if !same {
+                    ctx.violation("c11.composition", &format!("composition:{}", type_name(node)), &json!({"var": [full, sentinel]}), tree, json!({"same path tail on the named node": b.brief()}), a.brief(), "resolving prefix.rest on the data differs from resolving rest on the node that prefix names");
+                }
+            }
+        }
         // perturbed paths: one segment changed / index moved out of range -> absent -> default
         let mut pert = segs.clone();
         let i = ctx.rng.below(pert.len());
@@ -476,7 +512,24 @@ fn c12_core(ctx: &mut Ctx) {
             }
         }
     }
-    ctx.exhaustive_parts.push("6 data trees x all key lists of length <= 2 (and duplicate patterns aba / aa / baab) over a 20-key pool x thresholds 0..4 x 5 ways of supplying the list".into());
+    // hostile key spellings (also those whose path meaning the statements leave open) on every tree
+    // and on scalar / empty data: whatever `var` makes of a key, `missing` must agree with it
+    let hostile: Vec<Value> = ["\\", "a\\", "\\\\", "\\.", ".", "..", "a.", ".a", "a..b", " ", "0.", ".0", "-0", "00", "+1", "1e0", "1.0", "a/b", "~", "e.", "e..f", "arr.", "arr.01", "arr.+1", "arr.-0", "arr.1.", "0.0", "\\0", "a\\.b\\", "é", "\\é"].iter().map(|k| json!(k)).collect();
+    let mut more_trees = trees.clone();
+    more_trees.extend([json!(5), json!(true), json!(""), json!([]), json!(0), json!("é日"), json!([[1]]), json!({"": 1, "\\": 2, ".": 3, " ": 4, "a/b": 5, "~": 6, "é": 7})]);
+    for t in more_trees.iter() {
+        for k in hostile.iter().chain(key_pool.iter()) {
+            idx += 1;
+            if !ctx.mine(idx) {
+                continue;
+            }
+            c12_missing(ctx, t, &[k.clone()], 0);
+            c12_missing(ctx, t, &[k.clone(), json!("zz"), k.clone()], 1);
+            c12_some(ctx, t, 1, &[k.clone()], false);
+            c12_some(ctx, t, 2, &[k.clone(), json!("zz")], false);
+        }
+    }
+    ctx.exhaustive_parts.push("6 data trees x all key lists of length <= 2 (and duplicate patterns aba / aa / baab) over a 20-key pool x thresholds 0..4 x 5 ways of supplying the list; 31 hostile key spellings x 14 trees incl. scalar data".into());
     // odd operands
     for (rule, data) in [
         (json!({"missing_some": [1, "a"]}), json!({})),
